@@ -1,69 +1,65 @@
 import SaphyrVerif.Props.C19
 /-!
-# C19 — counter-example theorems (the code violates the property on these witnesses)
+# C19 — former counter-examples, now regression examples
 
-Every witness is replayed on the implementation by the `robotics` harness (oracle stream) on every
-check run; see `known_findings.json`.
+The witnesses on which the code violated the property before the repairs
+* bebcb49 (`Parser::starts_ci` compares bytes instead of slicing the `str`) and
+* 78f916b (`parse_yaml12_float`: with the option on, a text the plain reading accepts is returned as
+  parsed — directly into the target width — unless the tag is `!degrees`)
+evaluated on the model of the repaired code.  The general statements are theorems of `Props/C19.lean`
+(`eval_total`, `plain_literal_unchanged`, `plain_literal_unchanged_f32`).  Every witness is replayed on the
+implementation by the `robotics` harness on every check run (oracle ids `C19-panic-*`,
+`C19-f32-double-rounding`, `C19-f(32|64)-*-when-on`, `C19-f64-digit-cap`: any hit is a violation again).
 -/
 namespace SaphyrVerif.Props.C19_Findings
 open SaphyrVerif SaphyrVerif.F64 SaphyrVerif.Robotics SaphyrVerif.Props.C19
 
-/-- (F) `C19-panic-str-slice-char-boundary`: the scalar `123é` (bytes 31 32 33 C3 A9) makes
-`starts_ci(".inf")` slice `&self.s[0..4]`, which ends inside `é` — a panic, not an error. -/
-theorem eval_panics_on_multibyte : evalExpr 0 (utf8 "123é".toList) = .panic .strSlice := by decide
+/-- (E, was F `eval_panics_on_multibyte`) `123é` (bytes 31 32 33 C3 A9): `starts_ci(".inf")` used to slice
+`&self.s[0..4]` inside `é` and panic; now it is an ordinary error, as for `12é`. -/
+example : evalExpr 0 (utf8 "123é".toList) = .err .trailing 0 := by decide
+example : evalExpr 0 (utf8 ".abé".toList) = .err .invalidFloat 0 := by decide
+example : evalExpr 0 (utf8 "12€".toList) = .err .trailing 0 := by decide
+example : evalExpr 0 (utf8 "1😀".toList) = .err .trailing 0 := by decide
+example : parseYaml12Float false "123é".toList 0 true = .hook .trailing := by decide
 
-/-- (F) the totality clause at full strength is false. -/
-theorem eval_total_counterexample : ¬ eval_total_Full := by
-  intro h
-  have := h 0 "123é".toList
-  rw [eval_panics_on_multibyte] at this
-  exact this
-
-/-- (F) `C19-f32-double-rounding`: for an `f32` target the literal `1.00000005960464477540` is
-`0x3F800001` without the extension (one correct rounding of the decimal) but `0x3F800000` with the
-option on (rounded to f64 first, then narrowed): "ordinary float literals keep exactly the value they
-have without the extension" fails for f32. -/
-theorem f32_double_rounding :
+/-- (E, was F `f32_double_rounding`) `1.00000005960464477540` as `f32`: `0x3F800001` with the option off
+AND on (it used to be `0x3F800000` with the option on: rounded to f64, then narrowed). -/
+example :
     parseYaml12Float true "1.00000005960464477540".toList 0 false = .ok (ofBits binary32 1065353217) ∧
-    parseYaml12Float true "1.00000005960464477540".toList 0 true = .ok (ofBits binary32 1065353216) := by
+    parseYaml12Float true "1.00000005960464477540".toList 0 true = .ok (ofBits binary32 1065353217) := by
   decide
 
-/-- Full statement of "plain literals are unchanged" for f32 — false by `f32_double_rounding`. -/
-def plain_literal_unchanged_f32_Full : Prop :=
-  ∀ s : List Char, ∀ v, parseYaml12Float true s 0 false = .ok v → parseYaml12Float true s 0 true = .ok v
+/-- (E) the double rounding is still what `v as f32` of the evaluator does — it is only no longer applied
+to plain literals: narrowing the f64 reading gives the other neighbour. -/
+example : convert binary32 (ofBits binary64 0x3FF0000010000000) = ofBits binary32 1065353216 := by decide
 
-theorem plain_literal_unchanged_f32_counterexample : ¬ plain_literal_unchanged_f32_Full := by
-  intro h
-  have := h "1.00000005960464477540".toList _ f32_double_rounding.1
-  rw [f32_double_rounding.2] at this
-  exact absurd this (by decide)
+/-- (E, was F `infinity_word_rejected_when_on`) the spelled-out `infinity` keeps its value. -/
+example :
+    parseYaml12Float false "infinity".toList 0 true = .ok (.inf false) ∧
+    parseYaml12Float false "-Infinity".toList 0 true = .ok (.inf true) ∧
+    parseYaml12Float true "INFINITY".toList 12 true = .ok (.inf false) := by decide
 
-/-- (F, recorded) acceptance changes when the option is switched on:
-`infinity` (accepted by `str::parse`, an unknown identifier for the evaluator) is rejected;
-`inf` and `nan` keep their values; a literal with `_` separators becomes accepted. -/
-theorem infinity_word_rejected_when_on :
-    parseYaml12Float false "infinity".toList 0 false = .ok (.inf false) ∧
-    parseYaml12Float false "infinity".toList 0 true = .hook .unknownIdent ∧
-    parseYaml12Float false "-Infinity".toList 0 false = .ok (.inf true) ∧
-    parseYaml12Float false "-Infinity".toList 0 true = .hook .unknownIdent := by decide
-
-theorem inf_nan_words_unchanged :
-    parseYaml12Float false "inf".toList 0 false = .ok (.inf false) ∧
+example :
     parseYaml12Float false "inf".toList 0 true = .ok (.inf false) ∧
-    parseYaml12Float false "-inf".toList 0 false = .ok (.inf true) ∧
     parseYaml12Float false "-inf".toList 0 true = .ok (.inf true) ∧
-    parseYaml12Float false "nan".toList 0 false = .ok .nan ∧
     parseYaml12Float false "nan".toList 0 true = .ok .nan := by decide
 
-theorem underscore_literal_accepted_only_when_on :
+/-- (E) the extension still extends: a literal with `_` separators is accepted only with the option on. -/
+example :
     parseYaml12Float false "1_000".toList 0 false = .invalid ∧
     parseYaml12Float false "1_000".toList 0 true = .ok (ofNat binary64 1000) := by decide
 
-/-- (F, recorded) Unicode white space around a literal is trimmed by the plain path (`str::trim`) but
-not skipped by the evaluator (`is_ws` = space, tab, LF, CR): U+00A0 `1.5` is 1.5 with the option off
-and an error with it on. -/
-theorem unicode_whitespace_rejected_when_on :
+/-- (E, was F `unicode_whitespace_rejected_when_on`) U+00A0 `1.5` is 1.5 with the option off and on. -/
+example :
     parseYaml12Float false [Char.ofNat 0xA0, '1', '.', '5'] 0 false = .ok (ofBits binary64 0x3FF8000000000000) ∧
-    parseYaml12Float false [Char.ofNat 0xA0, '1', '.', '5'] 0 true = .hook .expectedPrimary := by decide
+    parseYaml12Float false [Char.ofNat 0xA0, '1', '.', '5'] 0 true = .ok (ofBits binary64 0x3FF8000000000000) := by
+  decide
+
+/-- (E, out of scope of the property) under an explicit `!degrees` tag the evaluator still runs, so its
+lexical rules apply there: `infinity` is an unknown identifier, `180` is converted once. -/
+example :
+    parseYaml12Float false "infinity".toList TAG_DEGREES true = .hook .unknownIdent ∧
+    parseYaml12Float false "180".toList TAG_DEGREES true = .ok PI ∧
+    parseYaml12Float false "180".toList TAG_DEGREES false = .ok (ofNat binary64 180) := by decide
 
 end SaphyrVerif.Props.C19_Findings
